@@ -118,8 +118,35 @@ fn ok_ref(r: &Result<MKProof, ProofError>) -> (p: &MKProof) requires r is Ok ens
 #[verifier::external_body]
 fn names_is_empty(v: &Vec<ImmutableFileName>) -> (r: bool) ensures r == (v@.len() == 0) { v.is_empty() }
 
+// ---- the certificate binds the Merkle root ----
+pub enum ProtocolMessagePartKey { CardanoDatabaseMerkleRoot, Other }
+pub uninterp spec fn message_parts(m: &ProtocolMessage) -> Map<ProtocolMessagePartKey, Seq<char>>;
+pub uninterp spec fn node_hex(n: &MKTreeNode) -> Seq<char>;
+/// CertificateMessage::match_message: the certificate's signed message is the digest of this protocol message
+pub uninterp spec fn certificate_signs(c: &CertificateMessage, parts: Map<ProtocolMessagePartKey, Seq<char>>) -> bool;
+impl Clone for ProtocolMessage { #[verifier::external_body] fn clone(&self) -> (r: Self) ensures r == *self { unimplemented!() } }
+impl ProtocolMessage {
+    #[verifier::external_body]
+    pub fn set_message_part(&mut self, key: ProtocolMessagePartKey, value: String) -> (r: Option<String>)
+        ensures message_parts(final(self)) == message_parts(old(self)).insert(key, value@)
+    { unimplemented!() }
+}
+impl MKTreeNode { #[verifier::external_body] pub fn to_hex(&self) -> (r: String) ensures r@ == node_hex(self) { unimplemented!() } }
+impl CertificateMessage {
+    #[verifier::external_body]
+    pub fn match_message(&self, m: &ProtocolMessage) -> (r: bool) ensures r == certificate_signs(self, message_parts(m)) { unimplemented!() }
+}
+#[verifier::external_body]
+fn anyhow_error() -> StdError { unimplemented!() }
+
 pub struct InternalArtifactProver {}
 impl InternalArtifactProver {
+    //@extract file=mithril-client/src/cardano_database_client/proving.rs fn=check_merkle_root_is_signed_by_certificate within="impl InternalArtifactProver"
+    //@ rewrite /MithrilResult<\(\)>/ => /Result<(), StdError>/
+    //@ rewrite /(?s)Err\(anyhow!\(.*?\)\)/ => /Err(anyhow_error())/
+    //@ spec ensures ret is Ok ==> certificate_signs(certificate, message_parts(&certificate.protocol_message).insert(ProtocolMessagePartKey::CardanoDatabaseMerkleRoot, node_hex(merkle_root)))
+    //@end
+
     #[verifier::external_body]
     fn immutable_dir(db_dir: &DirPath) -> PathBuf { unimplemented!() }
     /// list_missing_immutable_files (three `Path::exists` per number): empty exactly when every file of the range is present
